@@ -233,10 +233,9 @@ var verifDiffNames = []string{"a", "d", "d/e/g"}
 // names written with ./ and trailing /, empty-valued xattrs, no per-file digest) and expose the same tree: same
 // names, attributes (mode, owner, size, link name, link count, xattrs), and the same chunk for every file offset.
 func VerifH_C05_memoryVsDB() {
+	// the thorough tier adds valued xattrs and setuid/sticky bits on the first entry (a third entry was tried: 525 k
+	// paths in 50 minutes without finishing and without a finding; not registered)
 	maxEntries := 2
-	if vr.Tier() > 0 {
-		maxEntries = 3
-	}
 	n := 1 + vr.Len("entries", maxEntries-1)
 	var ents []*estargz.TOCEntry
 	var files []string // names of non-directory entries so far (hardlink targets)
@@ -247,7 +246,7 @@ func VerifH_C05_memoryVsDB() {
 		// permission bits and owner are symbolic (small enough that their varint encodings have one length)
 		mode := vr.I64("mode")
 		vr.Assume(0 <= mode && mode <= 0o177)
-		if vr.Tier() > 0 && vr.Bool("setuid+sticky") {
+		if vr.Tier() > 0 && i == 0 && vr.Bool("setuid+sticky") {
 			mode |= 0o5000
 		}
 		uid := vr.Int("uid")
@@ -266,7 +265,11 @@ func VerifH_C05_memoryVsDB() {
 			}
 		case 1:
 			e.Type = "reg"
-			e.Size = int64(vr.Choice("size", 3))
+			if i >= 2 {
+				e.Size = 1 // the third entry (thorough tier) varies in name and kind only
+			} else {
+				e.Size = int64(vr.Choice("size", 3))
+			}
 			e.Offset = offset
 			offset += 100
 			if e.Size >= 2 && vr.Bool("twoChunks") {
@@ -301,8 +304,11 @@ func VerifH_C05_memoryVsDB() {
 		}
 		if e != nil {
 			nx := 2
-			if vr.Tier() > 0 {
+			if vr.Tier() > 0 && i == 0 {
 				nx = 3
+			}
+			if i >= 2 {
+				nx = 1
 			}
 			switch vr.Choice("xattrs", nx) {
 			case 1:
